@@ -192,7 +192,9 @@ def gen_history(schema, ty, rnd, n, emphasis=None):
             elif o == "getin":
                 if msgf:
                     f = rnd.choice(msgf)
-                    ops.append({"op": "getin", "f": f["name"], "x": schema["types"][f["msg"]][0]["name"]})
+                    # (any field of the sub-message: reading a lazily created inner list / map / message is a read too)
+                    inner = [g for g in schema["types"][f["msg"]] if g["card"] != "oneof"]
+                    ops.append({"op": "getin", "f": f["name"], "x": rnd.choice(inner)["name"] if inner else schema["types"][f["msg"]][0]["name"]})
             else:
                 ops.append({"op": o})
     return ops
